@@ -8,6 +8,7 @@ CONSTANTS
   KeySp = {"targetname", "TargetName"}
   Prefixes = {"a"}
   IterOps = {"create_ent", "remove_ent", "set_name"}
+  ScanKinds = {"search_star", "items_class", "items_target"}
   CopyMaps = {"m2"}
   PClass = {"C"}
   PNames = {"", "a"}
